@@ -397,7 +397,7 @@ def run_impl(case):
     restore = []
     if case.get("work"):     # work-volume counters (class W): pivots per simplex_phase call, knapsack table cells, pricing calls
         work = {"max_pivots_per_phase": 0, "pivots": 0, "knapsack_cells": 0, "pricing_calls": 0, "_cur": 0}
-        o_piv, o_phase, o_knap_cg, o_knap_bp = pr._pivot, pr.simplex_phase, cg.knapsack_pricing, bp.knapsack_pricing
+        o_piv, o_phase, o_knap_cg, o_knap_bp = getattr(pr, "_pivot", None), pr.simplex_phase, cg.knapsack_pricing, bp.knapsack_pricing
 
         def piv(*a):
             work["_cur"] += 1
@@ -416,9 +416,12 @@ def run_impl(case):
             work["knapsack_cells"] = max(work["knapsack_cells"], int(capacity * 100) + 1)
             return _o(sizes, capacity, values, eps)
 
-        pr._pivot, cg.simplex_phase, bp.simplex_phase, cg.knapsack_pricing, bp.knapsack_pricing = piv, phase, phase, knap, knap
-        restore = [(pr, "_pivot", o_piv), (cg, "simplex_phase", o_phase), (bp, "simplex_phase", o_phase),
+        cg.simplex_phase, bp.simplex_phase, cg.knapsack_pricing, bp.knapsack_pricing = phase, phase, knap, knap
+        restore = [(cg, "simplex_phase", o_phase), (bp, "simplex_phase", o_phase),
                    (cg, "knapsack_pricing", o_knap_cg), (bp, "knapsack_pricing", o_knap_bp)]
+        if o_piv is not None:  # the pivot counter is an observation (work-volume histogram); a tree without the private helper is still judged
+            pr._pivot = piv
+            restore.append((pr, "_pivot", o_piv))
     if case["solver"] == "cg":
         orig = cg._solve_master_lp
 
